@@ -586,3 +586,134 @@ Qed.
 Lemma growth_guard_ne_refuted : exists maxbuf a, maxbuf <= Consts.guards_bufsize_clamp /\ gd_ack_ok a = true /\
   gd_bufsize_step_ne maxbuf Consts.guards_init_buffer_size a = -1.
 Proof. exists (-1), {| ga_len := 10240; ga_time := GdFast |}. vm_compute. repeat split; try reflexivity. discriminate. Qed.
+
+(* ------------------------------------------------------------------------------------ *)
+(* time as an input *)
+
+Lemma slow_threshold_whole_second : 1000 <= Consts.guards_ack_slow_ms.
+Proof. vm_compute. discriminate. Qed.
+
+(* no duration makes the divisor zero, provided the shrink threshold is at least one second *)
+Lemma ack_step_total_thr : forall thr maxbuf bs len ms, 1000 <= thr ->
+  gd_bufsize_step_ms thr maxbuf bs len ms <> None.
+Proof.
+  intros thr maxbuf bs len ms Hthr. unfold gd_bufsize_step_ms.
+  destruct ((len =? bs) && (ms <? Consts.guards_ack_fast_ms) && (bs <? maxbuf)); [discriminate|].
+  destruct ((thr <=? ms) && (len <=? bs)) eqn:Hs; [|discriminate].
+  apply andb_true_iff in Hs. destruct Hs as [Hs _]. apply Z.leb_le in Hs.
+  assert (1 <= ms / 1000) by (apply Z.div_le_lower_bound; lia).
+  destruct (ms / 1000 =? 0) eqn:Hk; [apply Z.eqb_eq in Hk; lia|discriminate].
+Qed.
+
+Lemma ack_step_total : forall maxbuf bs len ms, gd_bufsize_step_ms Consts.guards_ack_slow_ms maxbuf bs len ms <> None.
+Proof. intros. apply ack_step_total_thr. exact slow_threshold_whole_second. Qed.
+
+(* the step in milliseconds is the step in classes *)
+Lemma step_ms_is_step : forall maxbuf bs len ms,
+  gd_bufsize_step_ms Consts.guards_ack_slow_ms maxbuf bs len ms =
+  Some (gd_bufsize_step maxbuf bs {| ga_len := len; ga_time := gd_class_of_ms ms |}).
+Proof.
+  intros maxbuf bs len ms. unfold gd_bufsize_step_ms, gd_bufsize_step, gd_class_of_ms. cbn [ga_len ga_time].
+  assert (Hfs : Consts.guards_ack_fast_ms <= Consts.guards_ack_slow_ms) by (vm_compute; discriminate).
+  pose proof slow_threshold_whole_second as Hsl.
+  destruct (ms <? Consts.guards_ack_fast_ms) eqn:Hf.
+  - cbn [gd_is_fast]. apply Z.ltb_lt in Hf.
+    destruct ((len =? bs) && true && (bs <? maxbuf)); [reflexivity|].
+    assert (Hn : (Consts.guards_ack_slow_ms <=? ms) = false) by (apply Z.leb_gt; lia). rewrite Hn. reflexivity.
+  - apply Z.ltb_ge in Hf. rewrite andb_false_r. cbn [andb].
+    destruct (ms <? Consts.guards_ack_slow_ms) eqn:Hm.
+    + cbn [gd_is_fast]. rewrite andb_false_r. cbn [andb]. apply Z.ltb_lt in Hm.
+      assert (Hn : (Consts.guards_ack_slow_ms <=? ms) = false) by (apply Z.leb_gt; lia). rewrite Hn. reflexivity.
+    + cbn [gd_is_fast]. rewrite andb_false_r. cbn [andb]. apply Z.ltb_ge in Hm.
+      assert (Hn : (Consts.guards_ack_slow_ms <=? ms) = true) by (apply Z.leb_le; lia). rewrite Hn. cbn [andb].
+      destruct (len <=? bs); [|reflexivity].
+      assert (1 <= ms / 1000) by (apply Z.div_le_lower_bound; lia).
+      destruct (ms / 1000 =? 0) eqn:Hk; [apply Z.eqb_eq in Hk; lia|reflexivity].
+Qed.
+
+Lemma class_of_ms_ok : forall ms, gd_ack_ok {| ga_len := 0; ga_time := gd_class_of_ms ms |} = true.
+Proof.
+  intros ms. unfold gd_ack_ok, gd_class_of_ms. cbn [ga_time].
+  destruct (ms <? Consts.guards_ack_fast_ms); [reflexivity|].
+  destruct (ms <? Consts.guards_ack_slow_ms) eqn:Hm; [reflexivity|]. apply Z.ltb_ge in Hm.
+  apply Z.leb_le. apply Z.div_le_mono; [lia|exact Hm].
+Qed.
+
+(* a whole run in milliseconds never faults and is the run in classes: with it, the bound on
+   the capacities holds for every sequence of (length, duration) the peer can cause *)
+Lemma run_ms_is_run : forall maxbuf l bs,
+  gd_bufsize_run_ms Consts.guards_ack_slow_ms maxbuf bs l =
+  Some (gd_bufsize_run maxbuf bs (map (fun x => {| ga_len := fst x; ga_time := gd_class_of_ms (snd x) |}) l)).
+Proof.
+  intros maxbuf l. induction l as [|[len ms] r IH]; intros bs; cbn [gd_bufsize_run_ms gd_bufsize_run map fst snd].
+  - reflexivity.
+  - rewrite step_ms_is_step. rewrite IH. reflexivity.
+Qed.
+
+Lemma capacities_ms_bounded : forall maxbuf l, maxbuf <= Consts.guards_bufsize_clamp ->
+  exists cs, gd_capacities_ms maxbuf l = Some cs /\
+  Forall (fun c => Consts.guards_min_chunk <= c <= Z.max Consts.guards_init_buffer_size maxbuf) cs.
+Proof.
+  intros maxbuf l Hc. unfold gd_capacities_ms. rewrite run_ms_is_run. eexists. split; [reflexivity|].
+  apply (capacity_bounded maxbuf _ Hc).
+  apply forallb_forall. intros a Ha. apply in_map_iff in Ha. destruct Ha as [[len ms] [Ha _]]. subst a.
+  cbn [fst snd]. pose proof (class_of_ms_ok ms) as H. unfold gd_ack_ok in *. cbn [ga_time] in *. exact H.
+Qed.
+
+(* with the shrink threshold at the fast threshold (500 ms) an acknowledgement that arrives
+   between half a second and a second divides by zero *)
+Lemma ack_step_threshold_refuted : exists maxbuf bs len ms, 0 <= ms /\
+  gd_bufsize_step_ms Consts.guards_ack_fast_ms maxbuf bs len ms = None.
+Proof. exists 10485760, 10240, 10240, 700. split; [lia|reflexivity]. Qed.
+
+(* the boundary durations themselves, on the model *)
+Lemma ack_step_boundaries :
+  forallb (fun ms => forallb (fun len => match gd_bufsize_step_ms Consts.guards_ack_slow_ms 10485760 10240 len ms with Some _ => true | None => false end)
+                             [0; 7; 5120; 10240; 20480]) gd_boundary_ms = true.
+Proof. vm_compute. reflexivity. Qed.
+
+(* ------------------------------------------------------------------------------------ *)
+(* the archive writer's dispatch *)
+
+Lemma guards_present_archive_write :
+  Skel_guards.archive_file_write =
+  [("archiveFileWriter.Write", "f.file.Write(p[:int(m)])", ["f.left > 0 && f.file != nil"])]%string.
+Proof. reflexivity. Qed.
+
+Lemma aw_dispatch_total : forall left has_file, gd_aw_dispatch true left has_file <> GdAwNilDeref.
+Proof. intros left has_file. unfold gd_aw_dispatch. destruct (0 <? left), has_file; discriminate. Qed.
+
+Lemma aw_ways_total : forall hs left has_file, ~ In GdAwNilDeref (gd_aw_ways true left has_file hs).
+Proof.
+  induction hs as [|[[d sz] k] r IH]; intros left has_file; cbn [gd_aw_ways].
+  - intros [].
+  - unfold gd_aw_after_header. intros [H|H].
+    + exact (aw_dispatch_total _ _ H).
+    + apply in_app_or in H. destruct H as [H|H].
+      * apply repeat_spec in H. symmetry in H. exact (aw_dispatch_total _ _ H).
+      * exact (IH _ _ H).
+Qed.
+
+(* without the nil check: a directory entry that announces a size, then any further Write *)
+Lemma aw_nilcheck_refuted : In GdAwNilDeref (gd_aw_ways false 0 false [(true, 5, 1%nat)]).
+Proof. vm_compute. right. left. reflexivity. Qed.
+
+(* ------------------------------------------------------------------------------------ *)
+(* line splitting *)
+
+Lemma guards_present_line_split :
+  Skel_guards.line_split_sites =
+  [("decodeRelayBufferString", "line[1:idx]", ["!(idx < 1)"]);
+   ("trzszTransfer.recvCheck", "line[1:idx]", ["!(idx < 1)"]);
+   ("trzszTransfer.recvCheckV2", "line[1:idx]", ["!(idx < 1)"])]%string.
+Proof. reflexivity. Qed.
+
+Lemma line_split_total : forall line, gd_line_split 1 line <> GdSplitPanic.
+Proof.
+  intros line. unfold gd_line_split. destruct (index_byte 58%N line) as [i|]; [|cbn; discriminate].
+  destruct (Z.of_nat i <? 1) eqn:H; [discriminate|]. apply Z.ltb_ge in H.
+  destruct (i <? 1)%nat eqn:H2; [apply Nat.ltb_lt in H2; lia|discriminate].
+Qed.
+
+Lemma line_split_weak_guard_refuted : gd_line_split 0 [58; 119; 113]%N = GdSplitPanic.
+Proof. reflexivity. Qed.
